@@ -171,9 +171,21 @@ CLAIMS = [
                 'keypoints, units <= 2, input_dim <= 2.',
         'design_ref': 'DESIGN.md section 4 C15',
     },
+    {
+        'property_id': 'C14',
+        'level': 'other',
+        'technique': 'contract-based deductive verification by symbolic execution of BOTH real code paths of each pair on shared '
+                     'symbols and proof of equality (exact polynomial normal form per region, z3/cvc5 behind it)',
+        'text': 'KroneckerFactoredLattice vs Lattice on the outer-product kernel, cdf_fn vs CDF (mean/none), pwl_calibration_fn '
+                'vs PWLCalibration on the derived keypoints/kernel, ParallelCombination vs column-wise calibrators, RTL vs '
+                'gathering its recorded indices - equal for ALL parameters and inputs. Aggregation (ragged) is not claimed.',
+        'note': 'Trusted: operator contracts, Keras stub, z3/cvc5, reals for floats. Not covered: Aggregation over ragged '
+                'tensors (no operator contract for tf.ragged.map_flat_values over a Keras model). Bounded shapes.',
+        'design_ref': 'DESIGN.md section 4 C14',
+    },
 ]
 
 _PENDING = 'check not built yet in this session (planned, see DESIGN.md section 4); not claimed until its check exists'
 NOT_APPLICABLE = [
-    {'property_id': 'C%02d' % i, 'reason': _PENDING} for i in range(2, 21) if i not in (2, 4, 5, 6, 7, 9, 12, 13, 15, 19, 20)
+    {'property_id': 'C%02d' % i, 'reason': _PENDING} for i in range(2, 21) if i not in (2, 4, 5, 6, 7, 9, 12, 13, 14, 15, 19, 20)
 ]
